@@ -14,3 +14,15 @@ chk("C14", "seq", "explicit-state BFS with per-state store oracle (key == hash, 
     "At every state of every explored history, every node in every store level (memory map, layered current/previous, persistent stand-in via Iterate) is filed under GetHashBytes() of its content; CreateNode(Encode(n)) has equal hash and encoding; a trie re-read from the store references each node by its recomputed hash. Values contain separators, NUL, 0xff, msgpack-looking bytes; versions -1, 0, 1, 2^40 with bumps.",
     "Bounds as C01 with 2-6 adversarial values; the full byte range of values is not enumerated.",
     "DESIGN.md section 4 C14")
+chk("C06", "seq", "explicit-state BFS to closure over commit/lookup event universes of the real caches vs block-tree model, dedup on dumped private state",
+    "For every block forest with <=3 blocks (quick) / <=4 blocks (thorough), every order of txn Set/Remove/Commit, block Commit (children before parents included) and lookups at every block through all four lookup entry points is explored to closure; every hit equals the block-tree model's answer, removed keys and chains through uncommitted blocks miss.",
+    "Bounds: <=4 blocks, 1-2 keys, 1-2 txns per block; universes stay below LRU capacities (asserted), eviction behaviour is outside this exploration; values are immutable strings here (C07 covers mutable ones).",
+    "DESIGN.md section 4 C06")
+chk("C07", "seq", "explicit-state BFS to closure with mutable value types and must-hit oracle",
+    "Same universes as C06 with harness-mutated values of five mutable kinds (MutVal, LeafNode, FullNode, ExtensionNode, ValueNode): objects are mutated after every Set and after every Get; every later lookup at any layer equals the model's snapshot; visibility before commit is judged at txn and block level; after commit descendant lookups must hit (no capacity reachable).",
+    "Bounds as C06; 'unless evicted for capacity' is not exercised.",
+    "DESIGN.md section 4 C07")
+chk("C08", "sched", "stateless preemption-bounded DFS over all schedules of the real code under a cooperative scheduler (sync rewritten to vsync through -overlay, golang-lru vendored with the same rewrite)",
+    "Seven 3-thread scenarios (commit vs lookups at self/parent/child-block-cache, sibling commits, same hash twice, removal, key not cached, child committed while parent commits); all schedules with <=2 (quick) / <=3 and unbounded where it completes (thorough) preemptions at LRU-operation granularity; every concurrent hit equals the block-tree value, committed writes are found afterwards, no deadlock. Failures are replayed twice for determinism before being reported.",
+    "Scheduling points only before lock acquisitions (every LRU op is one critical section); atomics are not points; the data-race clause is covered only by the auxiliary free-running -race pass (bin/race.sh), which samples schedules.",
+    "DESIGN.md section 4 C08")
